@@ -3,10 +3,10 @@
 
    mv_target (FsModel.v) = PartitionedFileGroup::move_target with Path::{root, strip_root, join}.
    wf_abs p = p is an absolute path as Path::from builds it ("/" first, no "." component after it).
-   K6 (known finding, NOT fixed): check_can_rename uses Path::exists(), which follows symbolic links, so a
-   DANGLING symbolic link at the target does not count as existing and is replaced by the rename (or
-   written through by the copy): C18_no_overwrite holds for every target except that class, and
-   C18_K6_witness exhibits the failure. *)
+   K6 (a DANGLING symbolic link at the target was replaced, because check_can_rename used Path::exists(), which
+   follows links) is FIXED in the code (041ee27: fs::symlink_metadata(target).is_ok()); the model's Move now asks
+   LExists (lstat, no link following) and C18_no_overwrite has no exception.  The dangling-link state that used to be
+   the K6 witness is kept below as a regression Example. *)
 From FV Require Import Base FsModel AtomicModel AtomicProofs AtomicProofs2 AtomicProofs3 AtomicProofs4.
 Open Scope N_scope.
 
@@ -21,15 +21,15 @@ Theorem C18_shape : forall (d rest : path),
 Proof. exact c18_shape. Qed.
 Print Assumptions C18_shape.
 
-(* If anything that is not a dangling symbolic link exists at the target, Move (both branches, with or
-   without the lock prelude, under EVERY fault oracle) returns Err, leaves the file system exactly as it was
-   (Leibniz equality of the state) and logs only the error itself; it is not counted (C05_counted_iff_ok). *)
-Theorem C18_no_overwrite_except_K6 : forall (sl : bool) (src tgt : path) (rn : bool) (now : Z) (s : fs),
-  names s (norm tgt) <> None -> ~ dangling_link s (norm tgt) ->
+(* If ANYTHING exists at the target — a file, a directory, a symbolic link whether it resolves or dangles — Move
+   (both branches, with or without the lock prelude, under EVERY fault oracle) returns Err, leaves the file system exactly
+   as it was (Leibniz equality of the state) and logs only the error itself; it is not counted (C05_counted_iff_ok). *)
+Theorem C18_no_overwrite : forall (sl : bool) (src tgt : path) (rn : bool) (now : Z) (s : fs),
+  names s (norm tgt) <> None ->
   forall (o : oracle) (i : nat),
     let r := run o i (prog_of sl (FMove src tgt rn now)) s in ofs r = s /\ ores r = IErr /\ owarn r = 0%nat.
 Proof. exact c18_no_overwrite. Qed.
-Print Assumptions C18_no_overwrite_except_K6.
+Print Assumptions C18_no_overwrite.
 
 (* In every state a crash can expose (every fault oracle), the source is intact at its path, or the target
    already holds a complete copy of its bytes: the source is unlinked only after CopyTo succeeded. *)
@@ -40,7 +40,7 @@ Theorem C18_copy_then_delete : forall (sl : bool) (src tgt : path) (rn : bool) (
 Proof. exact c18_copy_then_delete. Qed.
 Print Assumptions C18_copy_then_delete.
 
-(* ---------------------------------------------------------------- K6 *)
+(* ---------------------------------------------------------------- the former K6 state: a dangling link at the target *)
 Definition k6_src : path := [root_c; [119]; [102; 50]].                   (* /w/f2 *)
 Definition k6_dir : path := [root_c; [111]].                              (* /o *)
 Definition k6_tgt : path := mv_target k6_dir k6_src.                      (* /o/./w/f2 *)
@@ -51,28 +51,23 @@ Definition k6_s : fs :=
                k6_src (mkInode [104; 105] 100))
     (norm k6_tgt) (Some (NLink [root_c; [110; 111; 119; 104; 101; 114; 101]])).       (* /o/w/f2 -> /nowhere *)
 
-Lemma C18_K6_witness :
-  exists (s : fs) (src tgt : path),
-    names s (norm tgt) <> None /\ dangling_link s (norm tgt) /\
-    let r := run nofault 0 (prog_of true (FMove src tgt true 0)) s in
-    ores r = IOk /\ names (ofs r) (norm tgt) <> names s (norm tgt).
+Example C18_dangling_link_refused :
+  dangling_link k6_s (norm k6_tgt) /\
+  (let r := run nofault 0 (prog_of true (FMove k6_src k6_tgt true 0)) k6_s in
+   ores r = IErr /\ names (ofs r) (norm k6_tgt) = names k6_s (norm k6_tgt) /\ names (ofs r) k6_src = Some (NFile 1)) /\
+  (let r := run nofault 0 (prog_of true (FMove k6_src k6_tgt false 0)) k6_s in
+   ores r = IErr /\ names (ofs r) (norm k6_tgt) = names k6_s (norm k6_tgt) /\
+   names (ofs r) [root_c; [110; 111; 119; 104; 101; 114; 101]] = None).
 Proof.
-  exists k6_s, k6_src, k6_tgt. split; [vm_compute; congruence|]. split.
-  - split; [eexists; vm_compute; reflexivity|vm_compute; reflexivity].
-  - vm_compute. split; [reflexivity|congruence].
+  split; [split; [eexists; vm_compute; reflexivity|vm_compute; reflexivity]|].
+  vm_compute. repeat split; reflexivity.
 Qed.
-(* the copy branch writes THROUGH the dangling link: a new file appears at the link's destination *)
-Lemma C18_K6_witness_copy :
-  let r := run nofault 0 (prog_of true (FMove k6_src k6_tgt false 0)) k6_s in
-  ores r = IOk /\ names k6_s [root_c; [110; 111; 119; 104; 101; 114; 101]] = None /\
-  names (ofs r) [root_c; [110; 111; 119; 104; 101; 114; 101]] = Some (NFile 2).
-Proof. vm_compute. repeat split; reflexivity. Qed.
 
-(* non-vacuity: a colliding regular file at the target satisfies the hypotheses of C18_no_overwrite_except_K6,
+(* non-vacuity: a colliding regular file at the target satisfies the hypothesis of C18_no_overwrite,
    and two distinct absolute sources map to distinct targets *)
 Definition coll_s : fs := set_name k6_s (norm k6_tgt) (Some (NFile 1)).
-Example C18_hyp_inhabited : names coll_s (norm k6_tgt) <> None /\ ~ dangling_link coll_s (norm k6_tgt).
-Proof. split; [vm_compute; congruence|]. intros [[t H] _]. vm_compute in H. discriminate. Qed.
+Example C18_hyp_inhabited : names coll_s (norm k6_tgt) <> None /\ names k6_s (norm k6_tgt) <> None.
+Proof. split; vm_compute; congruence. Qed.
 Example C18_wf_abs_inhabited : wf_abs k6_src /\ wf_abs [root_c] /\ mv_target k6_dir [root_c] = k6_dir ++ [dot_c; dot_c].
 Proof.
   split; [exists [[119]; [102; 50]]; split; [reflexivity|]|split; [exists []; split; [reflexivity|intros []]|reflexivity]].
